@@ -21,6 +21,7 @@ EVID = os.path.join(VERIF, "evidence")
 ALLOWED_AXIOMS = {"propext", "Classical.choice", "Quot.sound"}
 FORBIDDEN = re.compile(r"\b(sorry|admit|native_decide|bv_decide|implemented_by|unsafe)\b|^\s*axiom\s|maxHeartbeats\s+0\b")
 NCPU = os.cpu_count() or 4
+RUN_TIMEOUT = int(os.environ.get("VERIF_RUN_TIMEOUT", "900"))
 
 sys.path.insert(0, os.path.join(VERIF, "tools"))
 
@@ -78,7 +79,7 @@ def forbidden_tokens():
                         hits.append("%s:%d: %s" % (os.path.relpath(p, VERIF), ln, line.strip()[:100]))
     return hits
 
-def lean_phase(pid, theorems, modules):
+def lean_phase(pid, theorems, modules, tier="quick"):
     """returns dict(tie_ok, build_ok, obligations, discharged, failed:[...], axioms_seen, log)"""
     res = dict(tie_ok=True, build_ok=True, driver_ok=True, obligations=len(theorems), discharged=0,
                failed=[], axioms_seen=[], notes=[])
@@ -114,6 +115,14 @@ def lean_phase(pid, theorems, modules):
                 f.write("#print axioms %s\n" % t)
         rc, out = run(["lake", "env", "lean", af], cwd=LEAN, timeout=1800)
         res["audit_out"] = out
+        if tier == "thorough" and res["build_ok"]:
+            # independent re-check of the compiled property modules by the toolchain's leanchecker
+            t1 = time.time()
+            rc2, out2 = run(["lake", "env", "leanchecker"] + modules, cwd=LEAN, timeout=3600)
+            res["leanchecker"] = dict(rc=rc2, s=round(time.time() - t1, 1), out=out2.strip()[-300:])
+            if rc2 != 0:
+                res["build_ok"] = False
+                res["notes"].append("leanchecker rejected the compiled modules: " + out2.strip()[-400:])
     seen = set()
     ok = {}
     # parse: "'name' depends on axioms: [a, b]" (possibly wrapped) / "'name' does not depend on any axioms"
@@ -160,7 +169,7 @@ def build_harness(fast=False):
 
 MODEL_BIN = os.path.join(LEAN, ".lake", "build", "bin", "wowsrp_model")
 
-def run_lines(cmd, lines, shards=None):
+def run_lines(cmd, lines, shards=None, env=None):
     """run a line-protocol binary over the lines, sharded over processes; returns output lines"""
     if not lines:
         return []
@@ -172,14 +181,24 @@ def run_lines(cmd, lines, shards=None):
         chunk = lines[i * size:(i + 1) * size]
         if not chunk:
             continue
-        p = subprocess.Popen(cmd, stdin=subprocess.PIPE, stdout=subprocess.PIPE, stderr=subprocess.DEVNULL, text=True)
+        p = subprocess.Popen(cmd, stdin=subprocess.PIPE, stdout=subprocess.PIPE, stderr=subprocess.DEVNULL, text=True,
+                             env=(dict(os.environ, **env) if env else None))
         procs.append((p, chunk))
     # feed with threads to avoid pipe deadlock
     import threading
     outs = [None] * len(procs)
     def feed(k):
         p, chunk = procs[k]
-        o, _ = p.communicate("\n".join(chunk) + "\n")
+        try:
+            o, _ = p.communicate("\n".join(chunk) + "\n", timeout=RUN_TIMEOUT)
+        except subprocess.TimeoutExpired:
+            # a hung implementation (e.g. a loop that no longer terminates) must not hang the check
+            p.kill()
+            o, _ = p.communicate()
+            o = (o or "")
+            if o and not o.endswith("\n"):
+                o = o[:o.rfind("\n") + 1]
+            o += "<no-output: timed out>\n"
         outs[k] = o.split("\n")
         if outs[k] and outs[k][-1] == "":
             outs[k].pop()
@@ -230,7 +249,7 @@ def main():
         return replay(pid, mod, args.replay)
 
     # ---- Lean side
-    lean = lean_phase(pid, mod.THEOREMS, mod.MODULES)
+    lean = lean_phase(pid, mod.THEOREMS, mod.MODULES, tier)
     proof_ok = lean["tie_ok"] and lean["build_ok"] and lean["discharged"] == lean["obligations"]
     log("[%s] lean: obligations=%d discharged=%d axioms=%s (%.0fs)" % (pid, lean["obligations"], lean["discharged"], lean["axioms_seen"], lean.get("lake_s", 0)))
     for n in lean["notes"]:
@@ -270,8 +289,20 @@ def main():
 
     outs = {}
     t1 = time.time()
+    raw_outs = {}
     for name, b in backends:
-        outs[name] = run_lines([b], lines)
+        if len(backends) == 2:
+            # C19: the panic message is part of the comparison between the two builds (not with the model)
+            raw = run_lines([b], lines, env={"VERIF_PANIC_MSG": "1"})
+            # only the crate's own documented panics (`.expect(..)` on an InvalidPublicKeyError, whose message ends in
+            # the error kind) are compared across builds; panics raised inside num-bigint / rug (zero modulus) have
+            # library-specific texts and count as plain "panic"
+            keep = ("panic: Invalid public key generated", "panic: The generated public key was invalid")
+            raw_outs[name] = [o if (not o.startswith("panic: ") or o.startswith(keep)) else "panic" for o in raw]
+            outs[name] = ["panic" if o.startswith("panic: ") else o for o in raw_outs[name]]
+        else:
+            outs[name] = run_lines([b], lines)
+            raw_outs[name] = outs[name]
     t_impl = time.time() - t1
     model_outs = {}
     t1 = time.time()
@@ -307,8 +338,8 @@ def main():
                 f = g(c, o)
             if f:
                 oracle_fail.append(dict(line=c.line, backend=name, impl=o, why=f, kind=c.kind))
-        if len(backends) == 2 and outs["num"][i] != outs["rug"][i]:
-            backend_diff.append(dict(line=c.line, num=outs["num"][i], rug=outs["rug"][i], kind=c.kind))
+        if len(backends) == 2 and raw_outs["num"][i] != raw_outs["rug"][i]:
+            backend_diff.append(dict(line=c.line, num=raw_outs["num"][i], rug=raw_outs["rug"][i], kind=c.kind))
         nt = mod.nontrivial(c, outs["num"][i]) if hasattr(mod, "nontrivial") else c.line
         if nt is not None:
             distinct.add(hashlib.sha1(str(nt).encode()).digest()[:8])
@@ -376,7 +407,7 @@ def main():
                           "tools/gen_constants.py (constants translator, re-run on this run)",
                           "correspondence check: harness/src/main.rs + lean/Driver.lean + tools/verif.py differ",
                           "modelled, not verified: rustc/std, sha-1, hmac, md5, num-bigint, rug/GMP, rand (Model/Deps.lean, Model/Crypto.lean)"],
-            theorems=mod.THEOREMS, theorems_failed=lean["failed"],
+            theorems=mod.THEOREMS, theorems_failed=lean["failed"], leanchecker=lean.get("leanchecker"),
             evaluations=len(cases) * len(backends), distinct_nontrivial=len(distinct),
             rule=getattr(mod, "RULE", ""), samples=samples,
             traces_validated_against_impl=len(cases) if model_outs else 0,
